@@ -252,8 +252,10 @@ class FunctionUnit:
 
     def body(self):
         if self.is_lambda:
-            return [ast.Return(value=self.node.body, lineno=self.node.lineno,
-                               col_offset=self.node.col_offset)]
+            if getattr(self, '_lambda_body', None) is None:
+                self._lambda_body = [ast.Return(value=self.node.body, lineno=self.node.lineno,
+                                                col_offset=self.node.col_offset)]
+            return self._lambda_body
         return self.node.body
 
     def own_nodes(self):
